@@ -13,7 +13,7 @@ import (
 func init() {
 	register(&Spec{ID: "C11", Title: "Server messages and environment changes are surfaced exactly once", Run: runC11,
 		Meta: core.Meta{
-			Explanation: "R11.14 = R01.2. R11.13: EEDError.Add, callEnvChangeHooks and callEEDHooks each have a single return, at their end. R11.12 = R02.11 (Channel.queueRx is used on the reader goroutine's path only). R11.11: the width language of EnvChangePackage.WriteTo minus the token (0..n members) is included in that of ReadFrom. R11.10: no return of NextPackageUntil hands back the error value of the processing function itself (also when the callback answers (true, err)); it is returned wrapped, with the collected messages. Call-site and dominance rules over the hook dispatch. R11.1: handleSpecialPackage is called only from tryParsePackage, the call is dominated by pkg.ReadFrom's error being nil (a retried, incomplete parse cannot reach a hook) and it dominates the delivery send. R11.2: the delivery `packageCh <- pkg` is dominated by pass == true. R11.3: inside handleSpecialPackage — on the *EnvChangePackage edge every return yields false; the member loop calls callEnvChangeHooks exactly once per iteration with (member.Type, member.OldValue, member.NewValue) of the iteration's member; Conn.packetSize is stored from Atoi(member.NewValue) only on the Type == TDS_ENV_PACKSIZE edge; on the *EEDPackage edge the informational test is the non-vacuous mask Status&TDS_EED_INFO == TDS_EED_INFO, its true edge returns false without calling hooks, the other edge calls callEEDHooks exactly once and returns true. R11.4: callEEDHooks/callEnvChangeHooks are a single range loop over the registered slice calling each element once while holding the hooks mutex; Register*Hooks append to the same slice under the same mutex and reject nil entries before appending. R11.5: NextPackageUntil collects every *EEDPackage (Add, then continue before the callback); every return on a callback-error path (other than the identity io.EOF shortcut) returns fmt.Errorf(...%w, err) or the *EEDError whose WrappedError was set to it; EEDError.Is delegates to errors.Is(WrappedError, target); EED packages collected by the drain are appended after the earlier ones. R11.7 = R02.7 (a polling NextPackageUntil that has consumed an EED must wait for the rest; giving up drops the collected messages). R11.4 also requires that the hook lists are only ever appended to (never assigned a caller's slice). R11.8 = R07.1. R11.9: EEDError.EEDPackages is written only by append (Add, and the merge in NextPackageUntil); no element store and no sort.* / slices.Sort* call takes it — Error() has a value receiver but shares the backing array with the error the caller holds. R11.6 = C06's R06.5 for the member parser (each ENVCHANGE member is parsed into a fresh struct). R11.1 also requires one package per tryParsePackage invocation (a handled special package must be discarded before the next package is attempted, otherwise a fragmented successor makes it be parsed and reported again). R11.3 also requires that every iteration of the member loop evaluates the PACKSIZE test.",
+			Explanation: "R11.15: in every function that calls callEnvChangeHooks or callEEDHooks, no sync lock taken earlier in that function reaches the call without a matching non-deferred unlock on some path (may-hold, intra-procedural; the locks the callers hold by design are not its subject). R11.14 = R01.2. R11.13: EEDError.Add, callEnvChangeHooks and callEEDHooks each have a single return, at their end. R11.12 = R02.11 (Channel.queueRx is used on the reader goroutine's path only). R11.11: the width language of EnvChangePackage.WriteTo minus the token (0..n members) is included in that of ReadFrom. R11.10: no return of NextPackageUntil hands back the error value of the processing function itself (also when the callback answers (true, err)); it is returned wrapped, with the collected messages. Call-site and dominance rules over the hook dispatch. R11.1: handleSpecialPackage is called only from tryParsePackage, the call is dominated by pkg.ReadFrom's error being nil (a retried, incomplete parse cannot reach a hook) and it dominates the delivery send. R11.2: the delivery `packageCh <- pkg` is dominated by pass == true. R11.3: inside handleSpecialPackage — on the *EnvChangePackage edge every return yields false; the member loop calls callEnvChangeHooks exactly once per iteration with (member.Type, member.OldValue, member.NewValue) of the iteration's member; Conn.packetSize is stored from Atoi(member.NewValue) only on the Type == TDS_ENV_PACKSIZE edge; on the *EEDPackage edge the informational test is the non-vacuous mask Status&TDS_EED_INFO == TDS_EED_INFO, its true edge returns false without calling hooks, the other edge calls callEEDHooks exactly once and returns true. R11.4: callEEDHooks/callEnvChangeHooks are a single range loop over the registered slice calling each element once while holding the hooks mutex; Register*Hooks append to the same slice under the same mutex and reject nil entries before appending. R11.5: NextPackageUntil collects every *EEDPackage (Add, then continue before the callback); every return on a callback-error path (other than the identity io.EOF shortcut) returns fmt.Errorf(...%w, err) or the *EEDError whose WrappedError was set to it; EEDError.Is delegates to errors.Is(WrappedError, target); EED packages collected by the drain are appended after the earlier ones. R11.7 = R02.7 (a polling NextPackageUntil that has consumed an EED must wait for the rest; giving up drops the collected messages). R11.4 also requires that the hook lists are only ever appended to (never assigned a caller's slice). R11.8 = R07.1. R11.9: EEDError.EEDPackages is written only by append (Add, and the merge in NextPackageUntil); no element store and no sort.* / slices.Sort* call takes it — Error() has a value receiver but shares the backing array with the error the caller holds. R11.6 = C06's R06.5 for the member parser (each ENVCHANGE member is parsed into a fresh struct). R11.1 also requires one package per tryParsePackage invocation (a handled special package must be discarded before the next package is attempted, otherwise a fragmented successor makes it be parsed and reported again). R11.3 also requires that every iteration of the member loop evaluates the PACKSIZE test.",
 			NotDecided:  "Exactly-once across packetisations rests on C02/C07 (retry without side effects); panicking hooks and hooks registered concurrently with dispatch are not decided.",
 			Assumptions: []string{"hooks do not re-enter the channel"},
 		}})
@@ -39,6 +39,8 @@ func runC11(r *core.Run) {
 	defer c11EEDReadOnly(r)
 	r.Rule("R11.12", "a send or Reset on the channel does not touch the receive queue (R02.11): a half-received ENVCHANGE is not thrown away", 1, false)
 	defer rxOwnership(r, "R11.12")
+	r.Rule("R11.15", "no lock taken on the way to the hooks is still held when they run", 1, false)
+	defer hooksRunUnlocked(r, "R11.15")
 	r.Rule("R11.13", "every message and every environment change reaches every hook and the collected error: no early return in front of the loop / the append", 3, false)
 	defer func() {
 		r.Rule("R11.14", "a packet size change is applied to the framing of the next message: EOM from the LIVE body size (R01.2)", 3, false)
